@@ -88,7 +88,7 @@ PDumpOk(d, v, byid) ==
   ELSE IF v.k \in SignedKinds THEN d.k = "int" /\ d.b = SignExt8(v.b)
   ELSE IF v.k \in UnsignedKinds THEN d.k = "int" /\ d.b = ZeroExt8(v.b)
   ELSE IF v.k = "double" THEN d.k = "dbl" /\ d.b = v.b
-  ELSE IF v.k = "float" THEN d.k = "flt" /\ d.b = v.b
+  ELSE IF v.k = "float" THEN (d.k = "flt" /\ d.b = v.b) \/ (d.k = "dbl" /\ "f32" \in DOMAIN d /\ d.f32 = v.b)    \* a float may surface as float64
   ELSE IF v.k = "string" THEN d.k = "str" /\ d.b = v.b
   ELSE IF v.k = "bytes" THEN d.k = "bin" /\ d.b = v.b
   ELSE \* message: map keyed by field number
